@@ -34,8 +34,9 @@ def BiCGSTAB_reset(Op,rhs,x0,eps=1e-6,nmax=40):
         Ap = Op.matvec(p)
         alpha = tn.dot(r.squeeze(),r0p.squeeze()) / tn.dot(Ap.squeeze(),r0p.squeeze())
         s = r - alpha * Ap
-        if tn.linalg.norm(s)<eps:
+        if tn.linalg.norm(s)<eps*norm_rhs:
             x_n = x+alpha*p
+            r_nn = tn.linalg.norm(s)
             break
         
         As = Op.matvec(s)
@@ -54,9 +55,10 @@ def BiCGSTAB_reset(Op,rhs,x0,eps=1e-6,nmax=40):
         beta = (alpha/omega)*tn.dot(r_n.squeeze(),r0p.squeeze())/tn.dot(r.squeeze(),r0p.squeeze())
         p = r_n+beta*(p-omega*Ap)
         
-        if abs(tn.dot(r_n.squeeze(),r0p.squeeze())) < 1e-6:
+        if abs(tn.dot(r_n.squeeze(),r0p.squeeze())) < 1e-6*r_nn*tn.linalg.norm(r0p):
+            # (near) breakdown: restart with the current residual as shadow residual and search direction
             r0p = r_n
-            p_n = r_n
+            p = r_n
         # updates
         r = r_n
         x = x_n
